@@ -6,6 +6,7 @@ import (
 	"os"
 	"os/exec"
 	"path/filepath"
+	"regexp"
 	"runtime"
 	"sort"
 	"strconv"
@@ -339,11 +340,28 @@ type evidence struct {
 func finish(agg *Agg, start time.Time) int {
 	p := agg.Prop
 	known := LoadKnown()
-	knownByKey := map[string]KnownFinding{}
+	var findings []KnownFinding
 	for _, k := range known.Findings {
 		if k.Property == p.ID {
-			knownByKey[k.Key] = k
+			findings = append(findings, k)
 		}
+	}
+	// match returns the index of the listed finding that covers a violation key, or -1
+	match := func(key string) int {
+		for i, f := range findings {
+			if f.Key != "" && f.Key == key {
+				return i
+			}
+		}
+		for i, f := range findings {
+			if f.KeyPattern == "" {
+				continue
+			}
+			if re, err := regexp.Compile(f.KeyPattern); err == nil && re.MatchString(key) {
+				return i
+			}
+		}
+		return -1
 	}
 
 	// de-duplicate violations by key
@@ -357,31 +375,28 @@ func finish(agg *Agg, start time.Time) int {
 	}
 	sort.Strings(keys)
 
-	var newKeys, knownKeys []string
+	var newKeys []string
+	observed := map[int]int{}
 	for _, k := range keys {
-		if _, ok := knownByKey[k]; ok {
-			knownKeys = append(knownKeys, k)
+		if i := match(k); i >= 0 {
+			observed[i]++
 		} else {
 			newKeys = append(newKeys, k)
 		}
 	}
 
 	var knownObserved []string
-	for _, k := range knownKeys {
-		kf := knownByKey[k]
-		fmt.Printf("KNOWN-FINDING: property=%s key=%q %s\n", p.ID, k, kf.What)
-		knownObserved = append(knownObserved, k)
-	}
-	// listed findings this run did not re-observe are reported as notes (not alarms)
-	for k := range knownByKey {
-		found := false
-		for _, o := range knownObserved {
-			if o == k {
-				found = true
-			}
+	for i, f := range findings {
+		id := f.Key
+		if id == "" {
+			id = "pattern:" + f.KeyPattern
 		}
-		if !found {
-			fmt.Printf("NOTE: property=%s listed known finding %q was not re-observed by this run\n", p.ID, k)
+		if observed[i] > 0 {
+			fmt.Printf("KNOWN-FINDING: property=%s key=%q %s\n", p.ID, clip(id, 300), clip(f.What, 400))
+			knownObserved = append(knownObserved, id)
+		} else {
+			// listed findings this run did not re-observe are reported as notes (not alarms)
+			fmt.Printf("NOTE: property=%s listed known finding %q was not re-observed by this run\n", p.ID, clip(id, 300))
 		}
 	}
 
